@@ -1063,6 +1063,9 @@ def C11(tier, seed):
                     steps.append({"op": "Trigger"})
                 steps.append({"op": "Log", "len": rng.choice([9, 12, 21, 40])})
             steps.append({"op": "Stop"})
+            if i % 4 == 1:
+                # reopen_output() (the logrotate protocol) somewhere in the history: the writer stays unbuffered
+                steps.insert(rng.randint(2, max(2, len(steps) - 3)), {"op": "Reopen"})
             base.append({"sc": len(base) + 1, "cfg": c, "t0": 1000, "steps": steps, "origin": "rand"})
         # phase 1: recording run -> number of file-system effects (= crash points) per history
         for b in base:
